@@ -25,6 +25,22 @@ tuple with float or int elements (fractional positions on integer-typed points i
 caller's containers with their snapshots, then let the caller edit his container in place (re-centre,
 overwrite rows, sort columns) and ask all trees again: same brute-force table.  A wrong behaviour is classified
 by the set of forms it shows on relative to the forms tried (all / one attribute value / container kinds).
+
+Unit of length (subchecks C11.unit.<clause>): the lattice only holds small non-negative integers, values an index or a
+count could be mistaken for and on which absolute tolerances are invisible.  The @unit families hand the constructor
+2^e * (x + offset) for every lattice coordinate x (UNITS: strictly inside (0,1), all negative thousands, both signs
+around 1e-9, all >= 1024), positions and radii scaled alike; powers of two scale every distance exactly, so the
+brute-force integer tables stay the oracle, and the termination clause (every pivot answer of the seam) is evaluated
+on the scaled coordinates as well.  np.random.choice(n) with an int population is answered as numpy documents it
+(np.arange(n)).
+
+Call forms and documented defaults (subchecks C11.call.strategy_spelling, C11.call.keyword_forms, C11.defaults.omitted,
+C11.defaults.signature): every strategy name lower-case / Capitalised / UPPER (the constructor validates
+strategy.lower()), the constructor and both queries written with keywords in several orders, and every optional
+argument omitted - one at a time and all together - against the value pinned in DOCUMENTED (copied from the docstrings:
+max_leaf_size 10, strategy 'fast', k 1, which 'l2'), on inputs where the default matters (9..12 and 23 points around the
+leaf size 10; 51 points, where 'fast' stops coinciding with 'balanced').  The expectation of a written form is the set
+of distinct trees, over all seam answers, of the positional lower-case reference form, resp. the brute-force table.
 """
 from __future__ import annotations
 import itertools, math, random as _pyrandom
@@ -46,7 +62,13 @@ RULE = ("every multiset of <= nmax points over the lattice L^d (all sizes, dupli
         "k in 1..n+1, all radii; the first tree of the float64 / int64 / int-tuple forms in the 8 query forms Vec / "
         "ndarray / list / tuple x float / int, int-typed only for positions without fractional part), the argument "
         "containers are compared with their snapshot, then the caller edits his container in place (re-centre, "
-        "overwrite rows, sort columns) and all trees are asked again against the same brute-force table")
+        "overwrite rows, sort columns) and all trees are asked again against the same brute-force table. Unit of length: "
+        "the @unit families are built and asked on 2^e*(x+offset) instead of the lattice values x (quick: one unit per "
+        "point set, rotating; thorough: every unit), all clauses incl. termination over every pivot answer. Call forms: "
+        "every point set of the call families x leaf size x strategy is built with the name Capitalised and UPPER, in the "
+        "keyword forms (quick: one per point set, rotating), and with strategy omitted; the queries of its first tree "
+        "with an internal node are written with keywords and with k omitted; inputs of 9..12, 23 and 51 points are "
+        "built with max_leaf_size (and strategy) omitted; written signatures are compared with the pinned table")
 ASSUMPTIONS = [
     "numpy itself is trusted (np.median is permutation invariant, np.extract keeps order); only kdtree.py's np global is proxied",
     "coordinates are restricted to the listed lattices (floats that are exact small integers; half-integers for queries), "
@@ -61,6 +83,14 @@ ASSUMPTIONS = [
     "stored points only (lattice values are exact in float32), never for query positions; quick: one caller edit per "
     "(point set, form), kinds rotating so that every (form, edit) pair occurs; query forms other than Vec(float64) only "
     "on the first distinct tree (in key order) of the three core build forms",
+    "unit of length: scales are exact powers of two and offsets integers, so scaled coordinates, differences, squares and "
+    "their sums are exact doubles and the library's distances are the unscaled ones times the scale (checked: the scaled "
+    "array equals the element-wise products); quick rotates the units over the point sets instead of crossing them",
+    "strategy names are case-insensitive because the constructor validates strategy.lower() (behaviour of the unchanged "
+    "tree, not the docstring); only the spellings lower / Capitalised / UPPER are tried",
+    "documented defaults (max_leaf_size=10, strategy='fast', k=1, which='l2') and the parameter order are pinned in "
+    "DOCUMENTED from the docstrings of the unchanged tree; below 51 points 'fast' samples every point and builds the trees "
+    "of 'balanced', so an omitted strategy is told from 'balanced' only on the 51-point line",
 ]
 BOUNDS = {
     "quick": "leaf sizes 1..3; k=1..n+1; radii {0,1/2,1,sqrt2,8,inf}. d=1: L={0,1,2,8,20}, n<=5, balanced/fast/random (all "
@@ -69,7 +99,12 @@ BOUNDS = {
              "{-1,0,4,8}^3; fast@51 distinct points on a line, leaf 3, 51 leave-one-out root samples; argument forms / "
              "ownership: d=1 L={0,1,8} n=1..3 (7 query points), d=2 L={0,1,8} n=1..2 (16 query points of "
              "{-1/2,0,9/2,8}^2), 10 build forms, leaf 1..2, all strategies and pivots, 8 query forms, 1 of 3 caller edits "
-             "per container",
+             "per container; unit of length (3 units 2^-5*(x+1), 2^10*(x-21), 2^-30*(x-3), one per point set): d=1 "
+             "L={0,1,2,8,20} n=2..4 all strategies full queries, d=2 L={0,1,8} n=2 (25 query points) and n=3 build clauses, "
+             "d=3 L={0,8} n=2 leaf 1 (27 query points); call forms: d=1 L={0,1,2,8,20} n=2..3 and d=2 L={0,8} n=2..3, leaf "
+             "1..2, 3 strategies x 2 spellings, 1 of 4 keyword forms per point set, strategy omitted (2 forms), query "
+             "forms on 1 tree per point set; defaults: lines of 9,10,11,12 points, 4x3 grid, 2 values x 6, 11 copies + 1 "
+             "(all strategies), line of 23 (balanced/fast), line of 51 leaf 3 and default leaf (fast); 5 signatures",
     "thorough": "leaf sizes 1..3; k=1..n+1; radii {0,1/2,1,sqrt2,8,inf}. d=1: L={0,1,2,8,20}, n<=6, all strategies, sorted and "
                 "reversed rows; d=2: L={0,1,8}: n<=3 all strategies sorted+reversed rows and int dtype, n=4 all strategies, "
                 "n=5 balanced/fast with 25 query points (lattice+midpoints); L={0,1,2,8}: n<=2 all strategies, n=3 "
@@ -80,7 +115,11 @@ BOUNDS = {
                 "root samples (leaf 3: plus <=1 reversed-sample deviation below 51 points); argument forms / ownership: "
                 "d=1 L={0,1,2,8,20} n=1..3 all strategies, n=4 balanced/fast (11 query points), d=2 L={0,1,8} n=1..2 (25 "
                 "query points) and n=3 balanced/fast (16 query points), d=3 L={0,8} n=1..2 (27 query points of "
-                "{-1/2,7/2,8}^3), 16 build forms, leaf 1..2, 8 query forms, each of the 3 caller edits on a fresh container",
+                "{-1/2,7/2,8}^3), 16 build forms, leaf 1..2, 8 query forms, each of the 3 caller edits on a fresh container; "
+                "unit of length (4 units, every unit on every point set): d=1 L={0,1,2,8,20} n=2..5, d=2 L={0,1,8} n=2..3, "
+                "L={0,1,2,8,20} n=3 build clauses, d=3 L={0,8} n=2..3; call forms: d=1 L={0,1,2,8,20} n=2..4 leaf 1..3, d=2 "
+                "L={0,1,8} n=2..3, d=3 L={0,8} n=2..3, every keyword form on every point set; defaults: additionally line of "
+                "13, grids of 11, 14, 35, 2 values x 23, and the 51-point grid and clusters",
 }
 
 L5 = [0, 1, 2, 8, 20]
@@ -386,7 +425,7 @@ def _build(arr, leaf, strat, script, symdev=True, shape=None, call=None):
         _CUR[0] = None
 
 
-def _explore(arr, leaf, strat, symdev=True, shape=None, call=None):
+def _explore(arr, leaf, strat, symdev=True, shape=None, call=None, path_cap=None):
     """All executions of the constructor over every seam answer (stateless DFS).
     Returns dict(trees=[(tree, path)], trans={(key,axis): {pivot: (less, more)}}, statuses=Counter-like dict,
     paths=int, splits=int, seam_calls=int, capped=bool, raises=[...], caps=[...])."""
@@ -432,6 +471,9 @@ def _explore(arr, leaf, strat, symdev=True, shape=None, call=None):
                 deviated = True
         if res["paths"] >= PATH_CAP:
             res["capped"] = True
+            break
+        if path_cap is not None and res["paths"] >= path_cap and stack:
+            res["cut"] = True        # a call form that should repeat a reference exploration runs far more builds than that
             break
     return res
 
@@ -855,7 +897,8 @@ def _run_fast51(task, rep):
                 usable, want = _build_summary(r2, lf, d)
                 if not usable:
                     continue
-            ex2 = _explore(arr, lf, DEFAULT_STRATEGY, symdev=task["symdev"], call=_ctor_call(form, arr, lf, None))
+            ex2 = _explore(arr, lf, DEFAULT_STRATEGY, symdev=task["symdev"], call=_ctor_call(form, arr, lf, None),
+                           path_cap=4 * ex["paths"] + 100)
             _account(rep, ex2)
             for name in param.split("+"):
                 rep.count("defaults_exercised:KDTree.__init__." + name)
@@ -1375,6 +1418,9 @@ def _compare_builds(rep, ref_keys, ex, leaf, d):
     if ex["raises"]:
         (cls, msg), path = ex["raises"][0]
         return "raises:" + cls, dict(msg=msg, pivot_script=list(path))
+    if ex.get("cut"):
+        return "mismatch:trees_differ", dict(why="this form runs many more distinct builds than the reference form",
+                                             builds_explored_before_giving_up=ex["paths"], trees_of_reference_form=len(ref_keys))
     if ex["caps"] or _non_terminating_states(ex["trans"], leaf, d):
         return "hang", dict(why="a pending leaf is split again and again")
     keys = {_tree_key(t) for t, _ in ex["trees"]}
@@ -1481,7 +1527,7 @@ def _run_call_pointset(rep, pts, d, task, qpoints2, set_index):
         usable, ref_keys = ref_of[(leaf, DEFAULT_STRATEGY)]
         if usable:
             for form in ("omit:strategy", "omit:strategy:positional"):
-                ex = _explore(arr, leaf, DEFAULT_STRATEGY, call=_ctor_call(form, arr, leaf, None))
+                ex = _explore(arr, leaf, DEFAULT_STRATEGY, call=_ctor_call(form, arr, leaf, None), path_cap=2000)
                 _account(rep, ex)
                 rep.count("defaults_exercised:KDTree.__init__.strategy")
                 bad = _compare_builds(rep, ref_keys, ex, leaf, d)
@@ -1610,7 +1656,7 @@ def _run_defaults(task, rep):
         usable, ref_keys = _build_summary(ref, DEFAULT_LEAF, d)
         pos = _explore(arr, DEFAULT_LEAF, strat)
         _account(rep, pos)
-        ex = _explore(arr, DEFAULT_LEAF, strat, call=_ctor_call(form, arr, None, strat))
+        ex = _explore(arr, DEFAULT_LEAF, strat, call=_ctor_call(form, arr, None, strat), path_cap=4 * ref["paths"] + 100)
         _account(rep, ex)
         for name in param.split("+"):
             rep.count("defaults_exercised:KDTree.__init__." + name)
